@@ -296,6 +296,10 @@ func (g *cgen) curated() []ccase {
 		{"blob-upload-vs-manifest-needing-it", []string{setupBlob}, [][]string{{"UPOST r1 digest=sha256:c2 body=c2"}, {mput("r1", "t1", "@m3")}}},
 		{"blob-delete-vs-manifest-needing-it", []string{setupBlob}, [][]string{{"BDEL r1 sha256:c1"}, {mput("r1", "t1", "@m1")}}},
 		{"collection-vs-artifact-push", s, [][]string{{"GC r1"}, {mput("r1", "@a1", "@a1")}}},
+		// a listing that has read the index holds the repository until it has read the response document: a push that replaces
+		// the response followed by a collection cannot take the old document away under it
+		{"artifact-push-and-collection-vs-referrers-read", append(append([]string{}, s...), mput("r1", "@a1", "@a1")),
+			[][]string{{mput("r1", "@a2", "@a2"), "GC r1"}, {"REFS r1 sha256:@s1"}}},
 		{"collection-vs-tag-delete", []string{setupBlob, mput("r1", "t1", "@m1")}, [][]string{{"GC r1"}, {mdel("r1", "t1")}, {"TAGS r1"}}},
 		{"three-artifacts-one-subject", s, [][]string{{mput("r1", "@a1", "@a1")}, {mput("r1", "@a2", "@a2")}, {mput("r1", "@a3", "@a3")}}},
 		{"artifact-push-delete-read", append(append([]string{}, s...), mput("r1", "@a2", "@a2")), [][]string{{mput("r1", "@a1", "@a1")}, {mdel("r1", "@a2")}, {"REFS r1 sha256:@s1"}}},
